@@ -59,10 +59,17 @@ PickNames ==
   /\ names' \in OrderedSubsets
   /\ attr' \in {"pdf", "logpdf"}
   /\ UNCHANGED <<args, shp, gi>>
+\* argument choices of n once the requested names are known: a requested parameter only depends on requested ones
+ArgChoicesFor(n, req) == IF n \in req THEN {s \in ArgChoices(n) : \A i \in 1..Len(s) : s[i].t = "p" => s[i].p \in req}
+                         ELSE ArgChoices(n)
+\* all assignments, built name by name (sequences indexed like Names)
+RECURSIVE ArgSeqs(_, _)
+ArgSeqs(k, req) == IF k = 0 THEN {<<>>}
+                   ELSE {Append(s, c) : s \in ArgSeqs(k - 1, req), c \in ArgChoicesFor(Names[k], req)}
 PickDag ==
   /\ phase = 10 /\ phase' = 1
-  /\ \E a \in [NodeSet -> UNION {ArgChoices(n) : n \in NodeSet}] :
-       /\ \A n \in NodeSet : a[n] \in ArgChoices(n)
+  /\ \E s \in ArgSeqs(Len(Names), SeqSet(names)) :
+       LET a == [n \in NodeSet |-> s[Rank(n)]] IN
        /\ Acyclic(a)
        /\ Closed(DAG(a), names)
        /\ args' = a
